@@ -53,7 +53,18 @@ def special_bytes(rng, dt, n):
 
 def arr_recipe(rng, shape, dt, layout, special, pattern=None):
     n = int(np.prod(shape)) if len(shape) else 1
-    if pattern in ("ones", "zeros"):
+    if pattern == "signed_zeros" and np.dtype(dt).kind in "fc":
+        # nothing but zeros, at least one of them negative: `.any()` is False, the bytes are not all zero
+        comp = n * (2 if np.dtype(dt).kind == "c" else 1)
+        base = {2: "<f2", 4: "<f4", 8: "<f8"}[np.dtype(dt).itemsize // (2 if np.dtype(dt).kind == "c" else 1)]
+        z = np.zeros(comp, dtype=base)
+        for j in range(comp):
+            if rng.random() < 0.5:
+                z[j] = -0.0
+        if comp:
+            z[rng.randrange(comp)] = -0.0
+        raw = z.tobytes()
+    elif pattern in ("ones", "zeros", "signed_zeros"):
         # values that coincide with dataclass defaults / fill values must survive as well
         raw = (np.ones(n, dtype=np.dtype(dt)) if pattern == "ones" else np.zeros(n, dtype=np.dtype(dt))).tobytes()
     else:
@@ -112,7 +123,7 @@ def run(ctx):
             special = rng.random() < 0.6
             shapes = fields_with_shapes(rng, kind, rank)
             kw = []
-            pattern = rng.choice([None, None, None, "ones", "zeros"])
+            pattern = rng.choice([None, None, None, "ones", "zeros", "signed_zeros"])
             ctx.count("pattern_%s" % pattern)
             for f, sh in shapes.items():
                 d = dt
